@@ -51,15 +51,18 @@ Definition check_norm_ids (c : arr * obs * obs) : bool :=
    A mesh the checks reject must yield no topology construct (the read may also raise). *)
 Definition loc_obs := option (string * Z * Z * option Z * option Z).
 
-Definition summary_obs (s : loc_summary) : string * Z * Z * option Z * option Z :=
-  (ls_cell s, ls_axis s, fst (fst (ls_dt s)),
-   option_map (fun c : Z * bool * Z => fst (fst c)) (ls_cc s),
-   option_map (fun c : Z * bool * Z => fst (fst c)) (ls_bounds s)).
+Definition rows_of3 (c : Z * bool * Z) : Z := fst (fst c).
 
-Definition obs5_eqb (a b : string * Z * Z * option Z * option Z) : bool :=
-  let '(c1, x1, r1, cc1, b1) := a in
+(* the cell connectivity rows that may be seen: those of the repaired reader, or - when
+   attaching succeeds - those of the construct the earlier code built from a
+   face_face_connectivity variable on a foreign dimension (a malformed file: the property
+   says nothing about it, so both readers agree with the model) *)
+Definition obs5_ok (s : loc_summary) (b : string * Z * Z * option Z * option Z) : bool :=
   let '(c2, x2, r2, cc2, b2) := b in
-  String.eqb c1 c2 && (x1 =? x2) && (r1 =? r2) && option_eqb Z.eqb cc1 cc2 && option_eqb Z.eqb b1 b2.
+  String.eqb (ls_cell s) c2 && (ls_axis s =? x2) && (rows_of3 (ls_dt s) =? r2)
+  && (option_eqb Z.eqb (option_map rows_of3 (ls_cc s)) cc2
+      || (attach_ok_old s && option_eqb Z.eqb (option_map rows_of3 (ls_cc_old s)) cc2))
+  && option_eqb Z.eqb (option_map rows_of3 (ls_bounds s)) b2.
 
 Definition flags (c : Z * bool * Z) : bool * Z := (snd (fst c), snd c).
 Definition flags_eqb (a b : bool * Z) : bool := Bool.eqb (fst a) (fst b) && (snd a =? snd b).
@@ -73,16 +76,20 @@ Definition intent_ok (s : option loc_summary) (i : option ((bool * Z) * option (
   | None, Some _ => false
   end.
 
-Fixpoint zip3 (ms : list (option loc_summary)) (ds : list bool) (os : list loc_obs) : bool :=
+(* ds: the dimension of the data variable located on node / edge / face, if there is one *)
+Fixpoint zip3 (ms : list (option loc_summary)) (ds : list (option string)) (os : list loc_obs) : bool :=
   match ms, ds, os with
   | [], [], [] => true
   | m :: ms', d :: ds', o :: os' =>
-    (if d then match m, o with
-               | Some s, Some x => obs5_eqb (summary_obs s) x
-               | None, None => true
-               | _, _ => false
-               end
-     else true) && zip3 ms' ds' os'
+    (match d with
+     | None => true
+     | Some dd =>
+       match obind m (fun s => attach s dd), o with
+       | Some s, Some x => obs5_ok s x
+       | None, None => true
+       | _, _ => false
+       end
+     end) && zip3 ms' ds' os'
   | _, _, _ => false
   end.
 
@@ -94,12 +101,19 @@ Fixpoint all2 {A B} (f : A -> B -> bool) (l1 : list A) (l2 : list B) : bool :=
   end.
 
 Definition check_mesh
-  (c : meshmeta * list bool * result (list loc_obs) * list (option ((bool * Z) * option (bool * Z)))) : bool :=
+  (c : meshmeta * list (option string) * result (list loc_obs) * list (option ((bool * Z) * option (bool * Z)))) : bool :=
   let '(m, data_on, obs, intent) := c in
   match parse_mesh m, obs with
   | Err _, Err _ => true
   | Ok None, Err _ => true
   | Ok None, Ok l => forallb (fun o : loc_obs => match o with None => true | Some _ => false end) l
   | Ok (Some ls), Ok l => zip3 ls data_on l && all2 intent_ok ls intent
+  | Ok (Some ls), Err _ =>
+    (* only the earlier code raises here, and only because a construct could not be attached *)
+    existsb (fun p : option loc_summary * option string =>
+               match p with
+               | (Some s, Some dd) => match attach s dd with Some s' => negb (attach_ok_old s') | None => false end
+               | _ => false
+               end) (combine ls data_on)
   | _, _ => false
   end.
